@@ -4,7 +4,8 @@ R12.3 token table: lexer attributes agree with the Display table and the naming 
 R12.4 whole-source screening: decision table over code points (interval abstract interpretation of the MIR), dominance over lexing
 R12.5 versions are parsed with semver and failures mapped to InvalidVersion; paths split at the first '/' and '@'
 R12.6 the whole input is consumed; R12.7 parse_delimited separator discipline; R12.9 nested comment scanner consumes delimiters as units
-(R12.1/R12.2 grammar equivalence by automata: see c12_grammar.py when present)"""
+R12.1 per-production token-language equivalence with the reviewed automata, R12.2 Peek/FIRST agreement and list progress,
+R12.8 lookahead freshness: lib/c12_grammar.py on top of lib/grammar.py"""
 import os, re, json
 from cfg import CFG, error_blocks
 from prov import narrow
@@ -166,6 +167,8 @@ def run(ctx):
     whole_input(ctx)
     delimited(ctx)
     comment_scanner(ctx)
+    import c12_grammar
+    c12_grammar.run(ctx)
 
 
 # ---------------------------------------------------------------------------------------------------------
